@@ -23,6 +23,8 @@ func genFault(t *rapid.T, kinds []string) *Fault {
 	f := &Fault{Kind: rapid.SampledFrom(kinds).Draw(t, "fault_kind")}
 	f.At = rapid.IntRange(0, 600).Draw(t, "fault_at")
 	switch f.Kind {
+	case FaultCut:
+		f.Val = rapid.SampledFrom([]int{0, 0, 0, 1, 1, 2, 3, 4}).Draw(t, "fault_cut_snap")
 	case FaultFlag:
 		f.Val = rapid.SampledFrom([]int{1, 2, 3, 4, 8, 9, 0x10, 0x40, 0x7f, 0x80, 0x81, 0x82, 0xfe, 0xff, 0}).Draw(t, "fault_flag")
 		f.At = rapid.IntRange(0, 4).Draw(t, "fault_frame")
